@@ -139,7 +139,7 @@ func pulledItem(in ssa.Instruction) (item ssa.Value, okOrErr ssa.Value, what str
 		if x.Call.IsInvoke() {
 			name = x.Call.Method.Name()
 		} else if cal := staticCallee(&x.Call); cal != nil && cal.Signature.Recv() != nil {
-			name = cal.Name()
+			name = fname(cal)
 		}
 		switch name {
 		case "Next", "Peek":
